@@ -51,6 +51,7 @@ func concScenarios() []concScenario {
 		{Name: "update-update-same-session", Accounts: one, Pre: []Op{crA1, upd0}, Conc: []Op{usageOp("update", 0, 1, 100, 60, 600), usageOp("update", 0, 1, 50, 40, 601)}},
 		{Name: "update-update-two-sessions", Accounts: one, Pre: []Op{crA1, crA2, upd0}, Conc: []Op{usageOp("update", 0, 1, 100, 100, 600), usageOp("update", 1, 1, 50, 0, 601)}},
 		{Name: "update-release", Accounts: one, Pre: []Op{crA1, upd0}, Conc: []Op{usageOp("update", 0, 1, 100, 60, 600), usageOp("release", 0, 1, -1, 40, 601, "FINAL")}},
+		{Name: "release-release", Accounts: one, Pre: []Op{crA1, upd0}, Conc: []Op{usageOp("release", 0, 1, -1, 40, 600, "FINAL"), usageOp("release", 0, 1, -1, 40, 601, "FINAL")}},
 		{Name: "update-recharge", Accounts: []Account{{supiA, 1, "150", "2"}}, Pre: []Op{crA1, usageOp("update", 0, 1, 100, 0, 500)}, Conc: []Op{usageOp("update", 0, 1, 100, 75, 600), {K: "recharge", U: 0, RG: 1, Amt: 400}}},
 		{Name: "update-notify", Accounts: []Account{{supiA, 1, "150", "2"}}, Pre: []Op{crA1, usageOp("update", 0, 1, 100, 0, 500), {K: "recharge", U: 0, RG: 1, Amt: 400}}, Conc: []Op{usageOp("update", 0, 1, 100, 75, 600), {K: "recharge", U: 0, RG: 1}}},
 		{Name: "update-update-two-subscribers", Accounts: one, Pre: []Op{crA1, crB, upd0, usageOp("update", 1, 1, 70, 0, 501)}, Conc: []Op{usageOp("update", 0, 1, 100, 100, 600), usageOp("update", 1, 1, 30, 70, 601)}},
